@@ -45,7 +45,6 @@ def level_get_ensures(lookup):
         ('C18 C05:error-is-an-invalid-name-or-a-real-fault',
          'r.is_err() ==> !first_byte_ok(str_bytes(key.name)) || str_bytes(key.name).contains(0x2fu8) || final(w).hard_faults > old(w).hard_faults'),
         ('C06 C20:at-most-two-opens-per-level', 'final(w).steps <= old(w).steps + 6 && final(w).opens <= old(w).opens + 2'),
-        ('', 'forall|a: World| a.files == old(w).files ==> #[trigger] self.lookup(a, key) == self.lookup(*old(w), key)'),
     ]
 
 
@@ -63,7 +62,6 @@ def level_touch_ensures(lookup):
         ('C18 C05:error-is-an-invalid-name-or-a-real-fault',
          'r.is_err() ==> !first_byte_ok(str_bytes(key.name)) || str_bytes(key.name).contains(0x2fu8) || final(w).hard_faults > old(w).hard_faults'),
         ('C06 C20:at-most-two-calls-per-level', 'final(w).steps <= old(w).steps + 2 && final(w).opens == old(w).opens'),
-        ('', 'forall|a: World| a.files == old(w).files ==> #[trigger] self.lookup(a, key) == self.lookup(*old(w), key)'),
     ]
 
 
@@ -73,17 +71,17 @@ def weave_readonly(u, u4):
            'use crate::sharded::entry_in;\nuse crate::Key;\nuse crate::Arc;\nuse crate::cache_dir::CacheDir;\n')
     u.text('''
 /// The copy a plain directory holds for `name`: the inode bound to child(base, name).
-pub open spec fn plain_lookup(w: World, base: PathV, name: Seq<u8>) -> Option<InodeId> {
-    if w.files.contains_key(child(base, name)) { Some(w.files[child(base, name)]) } else { None }
+pub open spec fn plain_lookup(links: Map<PathV, InodeId>, base: PathV, name: Seq<u8>) -> Option<InodeId> {
+    if links.contains_key(child(base, name)) { Some(links[child(base, name)]) } else { None }
 }
 
 /// The copy a sharded directory returns: the primary candidate's, else the secondary's.
-pub open spec fn sharded_lookup(w: World, root: PathV, n: usize, key: Key) -> Option<InodeId> {
+pub open spec fn sharded_lookup(links: Map<PathV, InodeId>, root: PathV, n: usize, key: Key) -> Option<InodeId> {
     let s = shard_ids_spec(key.hash, key.secondary_hash, n);
-    if w.files.contains_key(entry_in(root, s.0, str_bytes(key.name))) {
-        Some(w.files[entry_in(root, s.0, str_bytes(key.name))])
-    } else if w.files.contains_key(entry_in(root, s.1, str_bytes(key.name))) {
-        Some(w.files[entry_in(root, s.1, str_bytes(key.name))])
+    if links.contains_key(entry_in(root, s.0, str_bytes(key.name))) {
+        Some(links[entry_in(root, s.0, str_bytes(key.name))])
+    } else if links.contains_key(entry_in(root, s.1, str_bytes(key.name))) {
+        Some(links[entry_in(root, s.1, str_bytes(key.name))])
     } else {
         None
     }
@@ -98,24 +96,24 @@ pub open spec fn sharded_lookup(w: World, root: PathV, n: usize, key: Key) -> Op
     g = t.sub(['fn get'])
     g.insert_before_tok(g.fn_kw(),
                         '/// Which copy (inode) this level holds for `key`, as a function of the link map only.\n'
-                        '    spec fn lookup(&self, w: World, key: Key) -> Option<InodeId>;\n\n'
+                        '    spec fn lookup(&self, links: Map<PathV, InodeId>, key: Key) -> Option<InodeId>;\n\n'
                         '    /// Handle well-formedness (established by the constructors).\n'
                         '    spec fn level_wf(&self) -> bool;\n\n'
                         '    ')
     g.add_param(W)
-    g.contract(requires=[('', 'old(w).inv() && self.level_wf()')], ensures=level_get_ensures('self.lookup(*old(w), key)'))
+    g.contract(requires=[('', 'old(w).inv() && self.level_wf()')], ensures=level_get_ensures('self.lookup(old(w).files, key)'))
     th = t.sub(['fn touch'])
     th.add_param(W)
-    th.contract(requires=[('', 'old(w).inv() && self.level_wf()')], ensures=level_touch_ensures('self.lookup(*old(w), key)'))
+    th.contract(requires=[('', 'old(w).inv() && self.level_wf()')], ensures=level_touch_ensures('self.lookup(old(w).files, key)'))
 
-    for ty, lookup, wf in (('PlainCache', 'plain_lookup(w, self.spec_base(), str_bytes(key.name))', 'self.wf()'),
-                           ('ShardedCache', 'sharded_lookup(w, self.spec_root(), self.spec_n(), key)', 'self.wf()')):
+    for ty, lookup, wf in (('PlainCache', 'plain_lookup(links, self.spec_base(), str_bytes(key.name))', 'self.wf()'),
+                           ('ShardedCache', 'sharded_lookup(links, self.spec_root(), self.spec_n(), key)', 'self.wf()')):
         im = u.item('src/readonly.rs', ['impl ReadSide for ' + ty])
         gg = u.under_contract(im.sub(['fn get']), ['C13', 'C15', 'C11', 'C05', 'C18', 'C19', 'C16', 'C06', 'C20'])
         gg.air = r'readonly::impl&%\d+::get'
         gg.probe_ok = False
         gg.insert_before_tok(gg.fn_kw(),
-                             'open spec fn lookup(&self, w: World, key: Key) -> Option<InodeId> { %s }\n\n'
+                             'open spec fn lookup(&self, links: Map<PathV, InodeId>, key: Key) -> Option<InodeId> { %s }\n\n'
                              '    open spec fn level_wf(&self) -> bool { %s }\n\n'
                              '    ' % (lookup, wf))
         gg.add_param(W)
@@ -142,15 +140,15 @@ pub open spec fn levels_wf(stack: Levels) -> bool {
 }
 
 /// C13: `idx` is the first level (in registration order) that holds a copy, and that copy is `ino`.
-pub open spec fn first_copy(stack: Levels, w: World, key: Key, idx: int, ino: InodeId) -> bool {
+pub open spec fn first_copy(stack: Levels, links: Map<PathV, InodeId>, key: Key, idx: int, ino: InodeId) -> bool {
     &&& 0 <= idx < stack.len()
-    &&& stack[idx].lookup(w, key) == Some(ino)
-    &&& forall|j: int| 0 <= j < idx ==> (#[trigger] stack[j]).lookup(w, key).is_none()
+    &&& stack[idx].lookup(links, key) == Some(ino)
+    &&& forall|j: int| 0 <= j < idx ==> (#[trigger] stack[j]).lookup(links, key).is_none()
 }
 
 /// C14: the checker accepted `ino` against every copy held by the levels idx+1 .. upto.
-pub open spec fn later_copies_accepted(stack: Levels, w: World, key: Key, c: ConsistencyChecker, ino: InodeId, idx: int, upto: int) -> bool {
-    forall|j: int| idx < j < upto && (#[trigger] stack[j]).lookup(w, key).is_some() ==> checker_accepts(c, ino, stack[j].lookup(w, key).unwrap())
+pub open spec fn later_copies_accepted(stack: Levels, links: Map<PathV, InodeId>, key: Key, c: ConsistencyChecker, ino: InodeId, idx: int, upto: int) -> bool {
+    forall|j: int| idx < j < upto && (#[trigger] stack[j]).lookup(links, key).is_some() ==> checker_accepts(c, ino, stack[j].lookup(links, key).unwrap())
 }
 
 impl ReadOnlyCache {
@@ -176,15 +174,15 @@ impl ReadOnlyCache {
              '%s.len() > 0 && !first_byte_ok(str_bytes(key.name)) ==> r.is_err() && err_kind(err_of(r)) == ErrorKind::InvalidInput && *final(w) == *old(w)' % stack),
             ('C13 C19 C01:the-first-copy-in-registration-order-is-returned-read-only-at-offset-zero',
              'r.is_ok() && r.unwrap().is_some() ==> !r.unwrap().unwrap().can_write() && r.unwrap().unwrap().offset() == 0 '
-             '&& exists|idx: int| #[trigger] first_copy(%s, *old(w), key, idx, r.unwrap().unwrap().ino()) '
+             '&& exists|idx: int| #[trigger] first_copy(%s, old(w).files, key, idx, r.unwrap().unwrap().ino()) '
              '&& (%s.is_none() ==> final(w).opens <= old(w).opens + 2 * (idx + 1)) '
-             '&& (%s.is_some() ==> later_copies_accepted(%s, *old(w), key, %s.unwrap(), r.unwrap().unwrap().ino(), idx, %s.len() as int))' % (stack, checker, checker, stack, checker, stack)),
+             '&& (%s.is_some() ==> later_copies_accepted(%s, old(w).files, key, %s.unwrap(), r.unwrap().unwrap().ino(), idx, %s.len() as int))' % (stack, checker, checker, stack, checker, stack)),
             ('C13 C05 C18:a-miss-means-no-level-holds-a-copy',
-             'r.is_ok() && r.unwrap().is_none() ==> forall|j: int| 0 <= j < %s.len() ==> (#[trigger] %s[j]).lookup(*old(w), key).is_none()' % (stack, stack)),
+             'r.is_ok() && r.unwrap().is_none() ==> forall|j: int| 0 <= j < %s.len() ==> (#[trigger] %s[j]).lookup(old(w).files, key).is_none()' % (stack, stack)),
             ('C18 C05 C14:error-is-an-invalid-name-a-real-fault-or-a-rejected-copy',
              'r.is_err() ==> %s || final(w).hard_faults > old(w).hard_faults || (%s.is_some() && exists|i: int, j: int| 0 <= i < j < %s.len() '
-             '&& (#[trigger] %s[i]).lookup(*old(w), key).is_some() && (#[trigger] %s[j]).lookup(*old(w), key).is_some() '
-             '&& !checker_accepts(%s.unwrap(), %s[i].lookup(*old(w), key).unwrap(), %s[j].lookup(*old(w), key).unwrap()))' % (BAD, checker, stack, stack, stack, checker, stack, stack)),
+             '&& (#[trigger] %s[i]).lookup(old(w).files, key).is_some() && (#[trigger] %s[j]).lookup(old(w).files, key).is_some() '
+             '&& !checker_accepts(%s.unwrap(), %s[i].lookup(old(w).files, key).unwrap(), %s[j].lookup(old(w).files, key).unwrap()))' % (BAD, checker, stack, stack, stack, checker, stack, stack)),
             ('C06 C20:at-most-two-opens-and-seven-calls-per-level', 'final(w).steps <= old(w).steps + 7 * %s.len() && final(w).opens <= old(w).opens + 2 * %s.len()' % (stack, stack)),
         ]
 
@@ -215,15 +213,15 @@ impl ReadOnlyCache {
         ('C15 C09:a-lookup-changes-nothing-but-access-times',
          'w.atime_only(*old(w)) && (k == 0 ==> *w == *old(w))'),
         ('C13:nothing-found-so-far-means-no-level-so-far-holds-a-copy',
-         'ret.is_none() ==> forall|j: int| 0 <= j < k ==> (#[trigger] stack@[j]).lookup(*old(w), key).is_none()'),
+         'ret.is_none() ==> forall|j: int| 0 <= j < k ==> (#[trigger] stack@[j]).lookup(old(w).files, key).is_none()'),
         ('C13 C14 C19:the-candidate-is-the-first-copy-accepted-against-every-later-copy-seen-so-far',
-         'ret.is_some() ==> checker.is_some() && 0 <= idx < k && first_copy(stack@, *old(w), key, idx, ret.unwrap().ino()) && !ret.unwrap().can_write() && ret.unwrap().offset() == 0 '
-         '&& later_copies_accepted(stack@, *old(w), key, checker.unwrap(), ret.unwrap().ino(), idx, k)'),
+         'ret.is_some() ==> checker.is_some() && 0 <= idx < k && first_copy(stack@, old(w).files, key, idx, ret.unwrap().ino()) && !ret.unwrap().can_write() && ret.unwrap().offset() == 0 '
+         '&& later_copies_accepted(stack@, old(w).files, key, checker.unwrap(), ret.unwrap().ino(), idx, k)'),
         ('C16:an-invalid-name-never-gets-past-the-first-level', 'k > 0 ==> first_byte_ok(str_bytes(key.name))'),
         ('C06 C20:at-most-two-opens-and-seven-calls-per-level', 'w.steps <= old(w).steps + 7 * k && w.opens <= old(w).opens + 2 * k'),
     ], ensures=[('', 'k == stack@.len()')], decreases='stack@.len() - k')
     d.insert_after('let mut ret', ': Option<File>')
-    d.insert_before('return Ok ( Some ( hit ) )', '{ proof { assert(first_copy(stack@, *old(w), key, k - 1, hit.ino())); } ')
+    d.insert_before('return Ok ( Some ( hit ) )', '{ proof { assert(first_copy(stack@, old(w).files, key, k - 1, hit.ino())); } ')
     d.insert_after('return Ok ( Some ( hit ) )', ' }')
     d.insert_before('ret = Some ( hit )', '{ proof { idx = k - 1; } ')
     d.insert_after('ret = Some ( hit )', ' }')
@@ -236,11 +234,11 @@ impl ReadOnlyCache {
             ('C16:invalid-names-fail-with-invalid-input-and-touch-nothing',
              '%s.len() > 0 && !first_byte_ok(str_bytes(key.name)) ==> r.is_err() && err_kind(err_of(r)) == ErrorKind::InvalidInput && *final(w) == *old(w)' % stack),
             ('C13 C09:the-first-copy-in-registration-order-is-the-one-marked',
-             'r == Ok::<bool, Error>(true) ==> exists|idx: int| 0 <= idx < %s.len() && (#[trigger] %s[idx]).lookup(*old(w), key).is_some() '
-             '&& final(w).inodes[%s[idx].lookup(*old(w), key).unwrap()].atime >= final(w).inodes[%s[idx].lookup(*old(w), key).unwrap()].mtime '
-             '&& forall|j: int| 0 <= j < idx ==> (#[trigger] %s[j]).lookup(*old(w), key).is_none()' % (stack, stack, stack, stack, stack)),
+             'r == Ok::<bool, Error>(true) ==> exists|idx: int| 0 <= idx < %s.len() && (#[trigger] %s[idx]).lookup(old(w).files, key).is_some() '
+             '&& final(w).inodes[%s[idx].lookup(old(w).files, key).unwrap()].atime >= final(w).inodes[%s[idx].lookup(old(w).files, key).unwrap()].mtime '
+             '&& forall|j: int| 0 <= j < idx ==> (#[trigger] %s[j]).lookup(old(w).files, key).is_none()' % (stack, stack, stack, stack, stack)),
             ('C13 C05 C18:false-means-no-level-holds-a-copy',
-             'r == Ok::<bool, Error>(false) ==> forall|j: int| 0 <= j < %s.len() ==> (#[trigger] %s[j]).lookup(*old(w), key).is_none()' % (stack, stack)),
+             'r == Ok::<bool, Error>(false) ==> forall|j: int| 0 <= j < %s.len() ==> (#[trigger] %s[j]).lookup(old(w).files, key).is_none()' % (stack, stack)),
             ('C18 C05:error-is-an-invalid-name-or-a-real-fault', 'r.is_err() ==> %s || final(w).hard_faults > old(w).hard_faults' % BAD),
             ('C06 C20:at-most-two-calls-per-level', 'final(w).steps <= old(w).steps + 2 * %s.len() && final(w).opens == old(w).opens' % stack),
         ]
@@ -267,7 +265,7 @@ impl ReadOnlyCache {
              '&& forall|j: int| 0 <= j < %s.len() ==> #[trigger] %s[j] == &stack@[k + j]' % (REM, REM, REM)),
         ('C15 C09:a-lookup-changes-nothing-but-access-times',
          'w.atime_only(*old(w)) && (k == 0 ==> *w == *old(w))'),
-        ('C13:no-level-so-far-holds-a-copy', 'forall|j: int| 0 <= j < k ==> (#[trigger] stack@[j]).lookup(*old(w), key).is_none()'),
+        ('C13:no-level-so-far-holds-a-copy', 'forall|j: int| 0 <= j < k ==> (#[trigger] stack@[j]).lookup(old(w).files, key).is_none()'),
         ('C16:an-invalid-name-never-gets-past-the-first-level', 'k > 0 ==> first_byte_ok(str_bytes(key.name))'),
         ('C06 C20:at-most-two-calls-per-level', 'w.steps <= old(w).steps + 2 * k && w.opens == old(w).opens'),
     ], ensures=[('', 'k == stack@.len()')], decreases='stack@.len() - k')
@@ -276,7 +274,7 @@ impl ReadOnlyCache {
 
 WRITE_SPECS = '''
     /// Which copy (inode) the write cache holds for `key`, as a function of the link map only.
-    spec fn lookup(&self, w: World, key: Key) -> Option<InodeId>;
+    spec fn lookup(&self, links: Map<PathV, InodeId>, key: Key) -> Option<InodeId>;
 
     /// Handle well-formedness (established by the constructors).
     spec fn level_wf(&self) -> bool;
@@ -309,10 +307,10 @@ def weave_stack(u, u4):
     g = t.sub(['fn get'])
     g.insert_before_tok(g.fn_kw(), WRITE_SPECS.strip() + '\n\n    ')
     g.add_param(W)
-    g.contract(requires=[('', 'old(w).inv() && self.level_wf()')], ensures=level_get_ensures('self.lookup(*old(w), key)'))
+    g.contract(requires=[('', 'old(w).inv() && self.level_wf()')], ensures=level_get_ensures('self.lookup(old(w).files, key)'))
     th = t.sub(['fn touch'])
     th.add_param(W)
-    th.contract(requires=[('', 'old(w).inv() && self.level_wf()')], ensures=level_touch_ensures('self.lookup(*old(w), key)'))
+    th.contract(requires=[('', 'old(w).inv() && self.level_wf()')], ensures=level_touch_ensures('self.lookup(old(w).files, key)'))
     td = t.sub(['fn temp_dir'])
     td.add_param(W)
     TEMP_ENS = [
@@ -349,12 +347,12 @@ def weave_stack(u, u4):
     S2 = 'shard_ids_spec(key.hash, key.secondary_hash, self.spec_n()).1'
     IMPL = {
         'PlainCache': dict(
-            lookup='plain_lookup(w, self.spec_base(), str_bytes(key.name))', wf='self.wf()', rw=RW_PLAIN,
+            lookup='plain_lookup(links, self.spec_base(), str_bytes(key.name))', wf='self.wf()', rw=RW_PLAIN,
             ready='value_ready(w, value, self.spec_base(), str_bytes(key.name))',
             wrote='write_frame(old, fin, self.spec_base(), str_bytes(key.name), value)',
             temp_ok='d == self.spec_temp()'),
         'ShardedCache': dict(
-            lookup='sharded_lookup(w, self.spec_root(), self.spec_n(), key)', wf='self.wf()', rw='self.rw(w)',
+            lookup='sharded_lookup(links, self.spec_root(), self.spec_n(), key)', wf='self.wf()', rw='self.rw(w)',
             ready='value_ready(w, value, shard_dir_of(self.spec_root(), %s as usize), str_bytes(key.name)) && value_ready(w, value, shard_dir_of(self.spec_root(), %s as usize), str_bytes(key.name))' % (S1, S2),
             wrote='sharded_frame(old, fin, self.spec_root(), self.spec_n(), str_bytes(key.name), value) '
                   '&& forall|p: PathV| #[trigger] fin.files.contains_key(p) && !old.files.contains_key(p) ==> p == entry_in(self.spec_root(), %s, str_bytes(key.name)) || p == entry_in(self.spec_root(), %s, str_bytes(key.name))' % (S1, S2),
@@ -369,7 +367,7 @@ def weave_stack(u, u4):
             m.probe_ok = False
             if first:
                 m.insert_before_tok(m.fn_kw(),
-                                    'open spec fn lookup(&self, w: World, key: Key) -> Option<InodeId> { %(lookup)s }\n\n'
+                                    'open spec fn lookup(&self, links: Map<PathV, InodeId>, key: Key) -> Option<InodeId> { %(lookup)s }\n\n'
                                     '    open spec fn level_wf(&self) -> bool { %(wf)s }\n\n'
                                     '    open spec fn rw(&self, w: World) -> bool { %(rw)s }\n\n'
                                     '    open spec fn ready(&self, w: World, value: PathV, key: Key) -> bool { %(ready)s }\n\n'
@@ -381,4 +379,91 @@ def weave_stack(u, u4):
             if name == 'temp_dir' and ty == 'PlainCache':
                 m.replace('_key : Key', 'key: Key', 'T12-unused-param-name')
     u.dropped.append('T12: the unused parameter `_key` of `impl FullCache for PlainCache::temp_dir` is spelled `key` (parameter names must match the trait contract)')
+    # ---- struct Cache, get::doit, touch::doit ------------------------------------------------------
+    st = u.item('src/stack.rs', ['struct Cache'])
+    st.drop_attrs()
+    st.drop_inner_attrs('# [ derivative ( Debug = "ignore" ) ]')
+    u.dropped.append('stack.rs: #[derive(Clone, Derivative)] on Cache; CacheBuilder, Default impls and the generic public shims '
+                     'Cache::{get, touch, set, put, set_temp_file, put_temp_file} (one forwarding call each to the `doit` under contract)')
+    u.text('''
+impl Cache {
+    pub closed spec fn writer(&self) -> Option<Arc<dyn FullCache>> { self.write_side }
+    pub closed spec fn checker(&self) -> Option<ConsistencyChecker> { self.consistency_checker }
+    pub closed spec fn readers(&self) -> ReadOnlyCache { self.read_side }
+    pub closed spec fn syncs(&self) -> bool { self.auto_sync }
+}
+
+/// No read-only level holds a copy.
+pub open spec fn no_read_copy(rs: ReadOnlyCache, links: Map<PathV, InodeId>, key: Key) -> bool {
+    forall|j: int| 0 <= j < rs.levels().len() ==> (#[trigger] rs.levels()[j]).lookup(links, key).is_none()
+}
+
+/// C14 for a write-side hit `x`: the configured checker accepted it against the first read-only copy, and that
+/// copy against every later read-only copy.
+pub open spec fn read_copies_accepted(rs: ReadOnlyCache, links: Map<PathV, InodeId>, key: Key, c: ConsistencyChecker, x: InodeId) -> bool {
+    forall|idx: int, y: InodeId| #[trigger] first_copy(rs.levels(), links, key, idx, y) ==> checker_accepts(c, x, y) && (rs.checker().is_some() ==> later_copies_accepted(
+        rs.levels(),
+        links,
+        key,
+        rs.checker().unwrap(),
+        y,
+        idx,
+        rs.levels().len() as int,
+    ))
+}
+''')
+    # the nested `doit` functions are extracted on their own (their generic one-call shims are dropped)
+    u.text('pub mod cache_get {\nuse super::*;\nuse crate::std;\n')
+    d = u.under_contract(u.item('src/stack.rs', ['impl Cache', 'fn get', 'fn doit']), ['C13', 'C14', 'C15', 'C16', 'C05', 'C18', 'C19', 'C01', 'C11', 'C06', 'C20'])
+    d.insert_before_tok(d.fn_kw(), 'pub ')
+    d.air = 'stack::cache_get::doit'
+    d.add_param(W)
+    d.replace('checker ( & mut ret , & mut read_hit )', 'checker.call(&mut ret, &mut read_hit)', 'T7-checker-call')
+    d.thread(['write . get', 'read_side . get', '. seek'])
+    WS = 'write_side.unwrap()'
+    d.contract(
+        requires=[('', 'old(w).inv() && levels_wf(read_side.levels()) && (write_side.is_some() ==> write_side.unwrap().level_wf())')],
+        ensures=[
+            ('C02 C18:valid-on-every-exit', 'final(w).inv()'),
+            ('', 'final(w).kept(*old(w)) && final(w).listed == old(w).listed && final(w).published == old(w).published'),
+            ('C15 C09:a-lookup-changes-nothing-but-access-times', 'final(w).atime_only(*old(w))'),
+            ('C16:invalid-names-fail-with-invalid-input-and-touch-nothing',
+             '(write_side.is_some() || read_side.levels().len() > 0) && !first_byte_ok(str_bytes(key.name)) ==> r.is_err() && err_kind(err_of(r)) == ErrorKind::InvalidInput && *final(w) == *old(w)'),
+            ('C13 C19 C01:the-write-cache-is-consulted-first-and-its-copy-returned-read-only-at-offset-zero',
+             'r.is_ok() && write_side.is_some() && %s.lookup(old(w).files, key).is_some() ==> r.unwrap().is_some() && r.unwrap().unwrap().ino() == %s.lookup(old(w).files, key).unwrap() '
+             '&& !r.unwrap().unwrap().can_write() && r.unwrap().unwrap().offset() == 0' % (WS, WS)),
+            ('C14:a-write-side-hit-is-checked-against-every-read-only-copy',
+             'r.is_ok() && write_side.is_some() && %s.lookup(old(w).files, key).is_some() && checker.is_some() ==> read_copies_accepted(*read_side, old(w).files, key, *checker.unwrap(), %s.lookup(old(w).files, key).unwrap())' % (WS, WS)),
+            ('C13 C14 C19:otherwise-the-first-read-only-copy-is-returned',
+             'r.is_ok() && r.unwrap().is_some() && !(write_side.is_some() && %s.lookup(old(w).files, key).is_some()) ==> !r.unwrap().unwrap().can_write() && r.unwrap().unwrap().offset() == 0 '
+             '&& exists|idx: int| #[trigger] first_copy(read_side.levels(), old(w).files, key, idx, r.unwrap().unwrap().ino()) '
+             '&& (read_side.checker().is_some() ==> later_copies_accepted(read_side.levels(), old(w).files, key, read_side.checker().unwrap(), r.unwrap().unwrap().ino(), idx, read_side.levels().len() as int))' % WS),
+            ('C13 C05 C18:a-miss-means-no-copy-anywhere',
+             'r.is_ok() && r.unwrap().is_none() ==> no_read_copy(*read_side, old(w).files, key) && (write_side.is_some() ==> %s.lookup(old(w).files, key).is_none())' % WS),
+            ('C06 C20:at-most-two-opens-per-directory', 'final(w).opens <= old(w).opens + 2 + 2 * read_side.levels().len()'),
+        ])
+    d.insert_after('if let Some ( write ) = write_side {',
+                   '\n                let ghost w0 = *w;\n                proof { assert forall|a: World, b: World| #[trigger] a.atime_only(w0) && #[trigger] b.atime_only(a) implies b.atime_only(w0) by { lemma_atime_only_trans(w0, a, b); } }')
+    u.text('}\npub mod cache_touch {\nuse super::*;\nuse crate::std;\n')
+    td = u.under_contract(u.item('src/stack.rs', ['impl Cache', 'fn touch', 'fn doit']), ['C13', 'C15', 'C16', 'C05', 'C18', 'C09', 'C06', 'C20'])
+    td.insert_before_tok(td.fn_kw(), 'pub ')
+    td.air = 'stack::cache_touch::doit'
+    td.add_param(W)
+    td.thread(['write . touch', 'read_side . touch'])
+    td.contract(
+        requires=[('', 'old(w).inv() && levels_wf(read_side.levels()) && (write_side.is_some() ==> write_side.unwrap().level_wf())')],
+        ensures=[
+            ('C02 C18:valid-on-every-exit', 'final(w).inv()'),
+            ('', 'final(w).kept(*old(w)) && final(w).listed == old(w).listed && final(w).published == old(w).published'),
+            ('C15 C09:a-touch-changes-nothing-but-access-times', 'final(w).atime_only(*old(w))'),
+            ('C13 C09:the-write-cache-copy-is-marked-first',
+             'r.is_ok() && write_side.is_some() && %s.lookup(old(w).files, key).is_some() ==> r.unwrap() '
+             '&& final(w).inodes[%s.lookup(old(w).files, key).unwrap()].atime >= final(w).inodes[%s.lookup(old(w).files, key).unwrap()].mtime' % (WS, WS, WS)),
+            ('C13 C05 C18:false-means-no-copy-anywhere',
+             'r == Ok::<bool, Error>(false) ==> no_read_copy(*read_side, old(w).files, key) && (write_side.is_some() ==> %s.lookup(old(w).files, key).is_none())' % WS),
+            ('C18 C05:error-is-an-invalid-name-or-a-real-fault', 'r.is_err() ==> %s || final(w).hard_faults > old(w).hard_faults' % BAD),
+        ])
+    td.insert_after('if let Some ( write ) = write_side {',
+                    '\n                let ghost w0 = *w;\n                proof { assert forall|a: World, b: World| #[trigger] a.atime_only(w0) && #[trigger] b.atime_only(a) implies b.atime_only(w0) by { lemma_atime_only_trans(w0, a, b); } }')
+    u.text('}\n')
     u.text('}\n')
